@@ -399,7 +399,13 @@ func genOptions(t *rapid.T) OptionsPlan {
 	p.Merger = rapid.SampledFrom([]string{"", "default", "custom"}[:pick(p.NilHooks, 2, 3)]).Draw(t, "merger")
 	p.Heuristic = rapid.SampledFrom([]string{"", "none", "wamp", "wamp"}).Draw(t, "heuristic")
 	if p.Heuristic == "wamp" {
-		p.WampPropensity = rapid.OneOf(rapid.Float64Range(0, 2), rapid.SampledFrom([]float64{0, 0.001, 0.005, 0.5, 1, 1e6})).Draw(t, "wamp_p")
+		// "If positive, a multilevel compaction may get picked even if the single
+		// level compaction has lower write amp, and vice versa": negative values
+		// are valid. Negative values that print as "-0.00" are not generated (they
+		// would fall into the below-print-precision class already listed as a
+		// known finding for another field).
+		p.WampPropensity = rapid.OneOf(rapid.Float64Range(0, 2), rapid.Float64Range(-2, -0.01),
+			rapid.SampledFrom([]float64{0, 0.001, 0.005, 0.5, 1, 1e6, -0.01, -0.5, -0.75, -100})).Draw(t, "wamp_p")
 		p.WampAllowL0 = rapid.Bool().Draw(t, "wamp_l0")
 	}
 	p.ReadCompactionRate = genPosInt64(t, "read_rate")
